@@ -61,7 +61,22 @@ def facts_of(test, polarity):
             return out
         return [(test, polarity)]
     out.append((test, polarity))
+    # the same fact in its complementary spelling: `a is not b` holding is `a is b` not holding (likewise != / ==, not in / in), so that a rule written for one
+    # spelling also recognises the other
+    if isinstance(test, ast.Compare) and len(test.ops) == 1 and type(test.ops[0]) in _COMPLEMENT:
+        twin = _complement_cache.get(id(test))
+        if twin is None or twin[0] is not test:
+            c = ast.Compare(left=test.left, ops=[_COMPLEMENT[type(test.ops[0])]()], comparators=test.comparators)
+            ast.copy_location(c, test)
+            c._parent = getattr(test, "_parent", None)
+            twin = (test, c)
+            _complement_cache[id(test)] = twin
+        out.append((twin[1], not polarity))
     return out
+
+
+_COMPLEMENT = {ast.Is: ast.IsNot, ast.IsNot: ast.Is, ast.Eq: ast.NotEq, ast.NotEq: ast.Eq, ast.In: ast.NotIn, ast.NotIn: ast.In}
+_complement_cache = {}
 
 
 def is_const_true(expr):
